@@ -1186,8 +1186,12 @@ class App:
             try:
                 err_handler(req, resp, ex, params)
             except HTTPStatus as status:
+                # NOTE: Whatever the handler had composed before giving up
+                #   must not end up in the response for what it raised.
+                resp.text = resp.data = resp.media = None
                 self._compose_status_response(req, resp, status)
             except HTTPError as error:
+                resp.text = resp.data = resp.media = None
                 self._compose_error_response(req, resp, error)
 
             return True
